@@ -63,13 +63,13 @@ RETURNS = {   # label -> (ret spec, expected out wraps (list of (kind, type text
     'ns-enum': (single(T('gt::Kind')), [('wrap_enum', 'gt.Kind')], 1),
 }
 
-NAMES = ['a', 'b', 'c', 'd']
+NAMES = ['a', 'b', 'c', 'd', 'e']
 
 
 def signatures(thorough):
     """All (modes list, k) of the family."""
     out = []
-    maxn = 4 if thorough else 3
+    maxn = 5 if thorough else 4
     for n in range(0, maxn + 1):
         if n == 0:
             out.append(([], 0))
@@ -424,7 +424,7 @@ def run(ctx):
         'rule': 'signatures = arity 0..%d x every trailing default count x one deviating parameter over 16 passing modes%s, '
                 'plus 13 return shapes; each as method / static / function / constructor; evaluations = (callable, arity) '
                 'pairs fully checked on both sides, distinct_nontrivial = distinct callables; scopes: namespace gt (all), global and gt::inner (%s)'
-                % ((4, ' + two deviating parameters for n = 2, 3', 'all') if ctx.thorough else (3, ' + two deviating parameters for n = 2', 'every 3rd signature')),
+                % ((5, ' + two deviating parameters for n = 2, 3', 'all') if ctx.thorough else (4, ' + two deviating parameters for n = 2', 'every 3rd signature')),
         'samples': [D.render(build_module('method', items[40:44], 'gt')[0])],
         'exhaustive': True,
     }
